@@ -59,7 +59,7 @@ e = MyStop(y=3, foo=2, result=[1]); b = s.deserialize(s.serialize(e)); print(" M
 e = StopEvent(); print(" empty StopEvent dump:", e.model_dump())
 ev = WorkflowFailedEvent(step_name="s", exception=Outer.InnerErr("boom"), attempts=1, elapsed_seconds=0.0)
 b = s.deserialize(s.serialize(ev)); print(" nested exception:", type(b.exception).__qualname__, str(b.exception))
-import workflows.events as E
+E = sys.modules["workflows.events"]
 try:
     print(" nested event type:", E._deserialize_event_type(E._serialize_event_type(Outer.InnerEv)).__qualname__)
 except Exception as ex: print(" nested event type ERR", type(ex).__name__, str(ex)[:80])
